@@ -594,6 +594,9 @@ def run_hist(case, res, prop):
         mon.op(i, op, a, w, v)
     if mon.dead:
         return
+    if mon.acct and prop in ("C09", "C03", "C10"):
+        if not blind_replay(case, mon, res):
+            return
     # end of history: everything reads back as the flat memory (also exercises read-allocate paths)
     mon.readback("end of history")
     if not mon.cfg["wt"] and "evict_written" in mon.flags:
@@ -609,6 +612,54 @@ def run_hist(case, res, prop):
         res.nontrivial(h)
     if prop == "C10" and mon.ref.evictions:
         res.nontrivial(h)
+
+
+def blind_replay(case, mon, res):
+    """The monitored system was looked at (cache representation, counters) after every operation.  The same
+    history is replayed on a fresh system WITHOUT a single inspection in between; at the end its counters and cycle
+    counter must be the ones of the monitored run (= the reference cache's) and its contents the flat memory's: a
+    cache must not behave differently when nobody is watching."""
+    import fixedint
+
+    m2, pm2 = make_system(case["cfg"])
+    for a, v in case["preload"].items():
+        m2.write_byte(int(a), fixedint.UInt8(v), True)
+    WR = {1: (m2.write_byte, fixedint.UInt8), 2: (m2.write_halfword, fixedint.UInt16), 4: (m2.write_word, fixedint.UInt32)}
+    RD = {1: m2.read_byte, 2: m2.read_halfword, 4: m2.read_word}
+    try:
+        for (op, a, w, v) in case["ops"]:
+            if (a & 3) + w > 4 and op in ("w", "r", "ru", "p"):
+                a -= (a & 3) + w - 4 if op == "p" else 0
+            if op == "r":
+                RD[w](a)
+            elif op == "ru":
+                RD[w](a, False)
+            elif op == "w":
+                f, T = WR[w]
+                f(a, T(v))
+            elif op == "p":
+                f, T = WR[w]
+                f(a, T(v), True)
+            elif op == "reset":
+                m2.reset()
+    except Exception as e:
+        mon.fail("C03", "unobserved-run-differs", "the same history raises %r when the cache is not inspected between the operations" % (e,), fatal=False)
+        return True
+    res.count("blind_replays")
+    st, st2 = mon.m.get_cache_stats(), m2.get_cache_stats()
+    a_ = (int(st["hits"]), int(st["accesses"]), mon.pm.cycles)
+    b_ = (int(st2["hits"]), int(st2["accesses"]), pm2.cycles)
+    if a_ != b_:
+        mon.fail("C09", "unobserved-run-differs", "end of history: (hits, accesses, cycles) = %r when the cache representation is read after every operation, %r when the same history runs without any inspection" % (a_, b_))
+        return False
+    if not mon.values_off:
+        for a in mon.universe:
+            if not a & 3:
+                got = int(m2.read_word(a, False))
+                if got != mon.flat.read(a, 4):
+                    mon.fail("C03", "unobserved-run-differs", "end of history, run without inspections: word %#x reads %#x, flat memory holds %#x" % (a, got, mon.flat.read(a, 4)), fatal=False)
+                    return True
+    return True
 
 
 # ------------------------------------------------------------------------------------------- BFS
